@@ -115,6 +115,16 @@ def edge_fact(body, sb, lab):
             ds = body.defs.get(inner[1], [])
             if len(ds) == 1 and ds[0][1] == "term":
                 inner = ("call", ds[0][0])
+        if inner[0] != "call" and lab != "otherwise":
+            # discriminant of a payload / local that is not directly a call result: classify by type
+            of = None
+            for st in body.blocks[sb]["stmts"]:
+                if st["k"] == "assign" and st["rv"]["k"] == "discriminant":
+                    of = st["rv"].get("of")
+            if of and of.startswith("core::result::Result<"):
+                return ("cls", None, "Ok" if lab == 0 else "Err", inner)
+            if of and of.startswith("core::option::Option<"):
+                return ("cls", None, "Some" if lab == 1 else "None", inner)
         if inner[0] == "call" and lab != "otherwise":
             ct = body.term(inner[1])
             n = callee_name(ct)
@@ -183,6 +193,8 @@ def describe(body, e, depth=0):
         return "phi(%s)" % ", ".join(sorted(describe(body, x, depth + 1) for x in e[1]))
     if k in ("local", "mem", "loop"):
         return "%s:%s" % (k, body.local_name(e[1]) or e[1])
+    if k == "fn":
+        return "fn:%s%s" % (e[3] or e[1], ("::<%s>" % ", ".join(e[2])) if e[2] and not e[3] else "")
     if k == "agg":
         return "%s::%s{%s}" % (e[1], e[2], ", ".join(describe(body, x, depth + 1) for x in e[3]))
     return k
